@@ -57,7 +57,7 @@ def specs_for(t, rnd):
             bgk = rnd.choice(["tuple", "hex6", "rgbfn"])
             out.append(dict(text=spell_variant(a, kind, k, rnd), bg=pairs.spell(b, bgk, rnd), large=bool(rnd.getrandbits(1)),
                             spell=kind, runs=[(mode, bool(j & 1)), ((mode + 1) % 3, not (j & 1))] + ([(mode, bool(j & 1), True)] if j % 3 == 0 else []),
-                            ref=True, chain=False))
+                            ref=True, chain=False, mustParse=True))
             k += 1
     # every one of the 4,096 three-digit hex colours as text (quick: one background each; thorough: four)
     for v in range(4096):
@@ -66,7 +66,7 @@ def specs_for(t, rnd):
             b = rnd.choice([(255, 255, 255), (238, 238, 238), (250, 250, 250), (17, 17, 17), (0, 0, 0), pairs.rand_colour(rnd)])
             s3 = "#%x%x%x" % (v >> 8, (v >> 4) & 15, v & 15)
             out.append(dict(text=s3 if (v + rep_) % 3 else s3[1:] if s3[1:].lower() not in refs._named() else s3, bg=b, large=bool(v & 1), spell="hex3",
-                            runs=[(0, bool(v & 2))] if t == "quick" else [(0, False), (1, True)], ref=True, chain=False))
+                            runs=[(0, bool(v & 2))] if t == "quick" else [(0, False), (1, True)], ref=True, chain=False, mustParse=True))
     # three-digit GREY texts over a ladder of grey backgrounds: the repaired colours run through the grey axis, hitting values
     # with special digit patterns (both nibbles equal, low nibble zero, ...) that a shorthand heuristic would treat differently
     for g3 in range(16):
